@@ -9,10 +9,11 @@
    point (data for unknown / closed streams included), ReadBytes/Discard/Peek of any size, releases,
    pool reuse, closes from either side, the application holding and returning slots, elements injected
    for arbitrary stream ids.  A label that is not enabled is a no-op, so every list of labels is a
-   history.  [init f n qc]: f = false is /repo today, f = true is the model with recycle() cleaning the
-   pinned list. *)
+   history.  [init f n qc]: f = true is the model of linkedBuffer.recycle() that also cleans the pinned
+   list (the code today), f = false the one that does not (the code before a234a74).  Which one is /repo
+   is decided by Gen/SwitchC09.v, regenerated from buffer.go on every run. *)
 From Coq Require Import List ZArith Lia Bool Arith Permutation.
-From Shm Require Import Gen.Consts Model.Accounting Proofs.AccountingProofs.
+From Shm Require Import Gen.Consts Gen.SwitchC09 Model.Accounting Proofs.AccountingProofs.
 Import ListNotations.
 Open Scope Z_scope.
 
@@ -30,21 +31,21 @@ Theorem C09_inv_disjoint_cover : forall f n qc h,
 Proof. exact inv_nodup_cover. Qed.
 Print Assumptions C09_inv_disjoint_cover.
 
-(* FULL statement on the model of today's code: once every stream is closed on both ends, nothing is
-   in flight and the application holds nothing, every slot is free (in-use = 0) — FALSE *)
-Definition C09_full : Prop :=
-  forall n qc h,
-  let s := run (init false n qc) h in
+(* THE statement, for the tree as it is (the switch is regenerated from buffer.go on every run: true =
+   linkedBuffer.recycle() cleans the pinned list, a234a74): once every stream is closed on both ends,
+   nothing is in flight and the application holds nothing, every slot is free (in-use = 0) — whatever
+   happened before.  If the call disappears from recycle() the switch becomes false and this file no
+   longer compiles. *)
+Theorem C09 : forall n qc h,
+  let s := run (init sw_recycle_cleans_pinned n qc) h in
   (ext s = [] /\ q_srv s = [] /\ q_cli s = [] /\ forall k, alive (streams s k) = false) ->
   Permutation (free s) (map Z.of_nat (seq 0 n)) /\ length (free s) = n.
+Proof. exact fixed_thm. Qed.
+Print Assumptions C09.
 
-Theorem C09_refuted : ~ C09_full.
-Proof. exact full_refuted. Qed.
-Print Assumptions C09_refuted.
-
-(* it holds for every history in which each Close finds an empty pinned list (ReleasePreviousRead
-   before Close) — and the hypothesis is void as soon as recycle() cleans the pinned list (fx = true) *)
-Theorem C09_partial : forall f n qc h,
+(* for either variant of recycle(): nothing is lost in any history in which each Close finds an empty
+   pinned list (ReleasePreviousRead before Close); with the switch on, the hypothesis is void *)
+Theorem C09_either_variant : forall f n qc h,
   guarded (fun s l => match l with
                       | Close e sid => fx s = true \/ pinned (streams s (key e sid)) = []
                       | _ => True
@@ -53,14 +54,16 @@ Theorem C09_partial : forall f n qc h,
   (ext s = [] /\ q_srv s = [] /\ q_cli s = [] /\ forall k, alive (streams s k) = false) ->
   Permutation (free s) (map Z.of_nat (seq 0 n)) /\ length (free s) = n.
 Proof. exact partial_thm. Qed.
-Print Assumptions C09_partial.
+Print Assumptions C09_either_variant.
 
-Theorem C09_once_fixed : forall n qc h,
-  let s := run (init true n qc) h in
-  (ext s = [] /\ q_srv s = [] /\ q_cli s = [] /\ forall k, alive (streams s k) = false) ->
-  Permutation (free s) (map Z.of_nat (seq 0 n)) /\ length (free s) = n.
-Proof. exact fixed_thm. Qed.
-Print Assumptions C09_once_fixed.
+(* regression, about the OLD code only (recycle() without cleanPinnedList, before a234a74): the same
+   statement was false — the pinned-at-Close history leaves slot 0 in the pinned list of a dead stream *)
+Example C09_old_code_leaked :
+  ~ (forall n qc h,
+     let s := run (init false n qc) h in
+     (ext s = [] /\ q_srv s = [] /\ q_cli s = [] /\ forall k, alive (streams s k) = false) ->
+     Permutation (free s) (map Z.of_nat (seq 0 n)) /\ length (free s) = n).
+Proof. exact full_refuted. Qed.
 
 (* non-vacuity: a history with queue full, a flush on a half-closed stream, data for an unknown
    stream, an allocation failure with fallback, partial reads and a release; everything is closed at the
@@ -79,7 +82,7 @@ Example C09_example_run :
   map (fun k => alive (streams s k)) (keys s) = [false; false; false; false].
 Proof. vm_compute. split; reflexivity. Qed.
 
-(* the witness of C09_refuted leaks exactly the pinned slot; on the repaired model it does not *)
+(* the old-code witness leaks exactly the pinned slot; on the current model it does not *)
 Example C09_witness :
   length (free (run (init true 4 8) witness_pinned)) = 4%nat /\ leaked (run (init false 4 8) witness_pinned) = [0].
 Proof. exact witness_fixed_ok. Qed.
